@@ -467,6 +467,23 @@ def analysed (o : CliOpts) (gc : List Str) : List Str :=
   let cs := configurations o gc
   (if o.force then cs else cs.take o.maxConfigs).map (currentConfig o.userDefines)
 
+/-! ### the duplicate-configuration purge of `checkInternal` (`hashes` / `TokenList::calculateHash`) -/
+
+/-- keep the first element of every key class (`if (hashes.find(hash) != hashes.end()) continue; hashes.insert(hash);`) -/
+def dedupByGo (key : Str → Nat) : List Nat → List Str → List Str
+  | _, [] => []
+  | seen, c :: cs => if seen.contains (key c) then dedupByGo key seen cs else c :: dedupByGo key (key c :: seen) cs
+
+def dedupBy (key : Str → Nat) (cs : List Str) : List Str := dedupByGo key [] cs
+
+/-- the token list analysed in configuration `c`: the code of the emitted regions, `content r` = tokens of region `r` -/
+def tokensOf (content : Nat → List Nat) (t : Items) (c : Str) : List Nat := (t.emit (defines c)).flatMap content
+
+/-- the configurations that reach `checkNormalTokens`: a configuration whose token list hashes like an earlier one is
+    purged -/
+def checkedConfigs (hash : List Nat → Nat) (content : Nat → List Nat) (t : Items) (cs : List Str) : List Str :=
+  dedupBy (fun c => hash (tokensOf content t c)) cs
+
 def CliOpts.inp (o : CliOpts) (defined0 : List Str) : Inp :=
   { defined0 := defined0, userDefines := o.userDefines, undefs := o.undefs }
 
